@@ -109,6 +109,8 @@ type ctx struct {
 	o     vh.Opts
 	rep   *vh.Report
 	ch    *vh.Channel
+	chIdx *vh.Channel
+	chMap *vh.Channel
 	find  *vh.Oracle
 	uni   *vh.Oracle
 	seenV map[string]bool
@@ -199,22 +201,64 @@ func (c *ctx) runTok(r *vh.RNG) {
 
 // ---------------------------------------------------------------- oracle findable
 
-var findMapping = seq.Mapping{
-	"k":   seq.NewSingleType(seq.TokenizerTypeKeyword, "", 0),
-	"t":   seq.NewSingleType(seq.TokenizerTypeText, "", 0),
-	"p":   seq.NewSingleType(seq.TokenizerTypePath, "", 0),
-	"x":   seq.NewSingleType(seq.TokenizerTypeExists, "", 0),
-	"o":   seq.NewSingleType(seq.TokenizerTypeObject, "", 0),
-	"o.k": seq.NewSingleType(seq.TokenizerTypeKeyword, "", 0),
-	"m": {Main: seq.MappingType{TokenizerType: seq.TokenizerTypeText},
-		All: []seq.MappingType{{Title: "m", TokenizerType: seq.TokenizerTypeText}, {Title: "m.keyword", TokenizerType: seq.TokenizerTypeKeyword}}},
-	"m.keyword": seq.NewSingleType(seq.TokenizerTypeKeyword, "m.keyword", 0),
-}
+// The mapping is built by the real reader (YAML -> seq.Mapping), with multi-type fields whose main (untitled) type
+// stands first (m), second after a keyword (m2) and second after a text type (m3).
+const findMappingYAML = `
+mapping-list:
+  - name: k
+    type: keyword
+  - name: t
+    type: text
+  - name: p
+    type: path
+  - name: x
+    type: exists
+  - name: o
+    type: object
+    mapping-list:
+      - name: k
+        type: keyword
+  - name: m
+    types:
+      - type: text
+      - title: keyword
+        type: keyword
+  - name: m2
+    types:
+      - title: keyword
+        type: keyword
+      - type: text
+  - name: m3
+    types:
+      - title: text
+        type: text
+      - type: keyword
+  - name: b1
+    type: keyword
+  - name: b2
+    type: keyword
+  - name: b3
+    type: keyword
+  - name: b4
+    type: text
+`
+
+var findMapping = func() seq.Mapping {
+	m, err := seq.ReadMapping([]byte(findMappingYAML))
+	if err != nil {
+		panic(err)
+	}
+	return m
+}()
+
+// nonStrings are JSON values that are not strings: the indexer encodes them back to JSON text (numbers keep their bytes)
+var nonStrings = []string{"true", "false", "null", `[1,"a"]`, `{"x":1}`, "[]", "{}", "12", "-3.5", `[true,false]`, `{"a":{"b":null}}`}
 
 // quoting styles: how the document's own bytes are written into a query
 type style struct {
 	name   string
 	legacy bool
+	strict bool // a quoting style that can express every value: failing to yield the single term is a violation
 	write  func(v []byte) (string, bool)
 }
 
@@ -232,20 +276,20 @@ func needsNothing(v []byte) bool {
 }
 
 var styles = []style{
-	{"seqql-raw", false, func(v []byte) (string, bool) { return "`" + string(v) + "`", !bytes.ContainsAny(v, "`") }},
-	{"seqql-double", false, func(v []byte) (string, bool) {
+	{"seqql-raw", false, true, func(v []byte) (string, bool) { return "`" + string(v) + "`", !bytes.ContainsAny(v, "`") }},
+	{"seqql-double", false, true, func(v []byte) (string, bool) {
 		return strings.ReplaceAll(strconv.Quote(string(v)), "*", `\*`), utf8.Valid(v)
 	}},
-	{"seqql-single", false, func(v []byte) (string, bool) {
+	{"seqql-single", false, true, func(v []byte) (string, bool) {
 		s := strings.NewReplacer(`\`, `\\`, `'`, `\'`, `*`, `\*`).Replace(string(v))
 		return "'" + s + "'", !bytes.ContainsAny(v, "\n\r")
 	}},
-	{"seqql-bare", false, func(v []byte) (string, bool) { return string(v), needsNothing(v) }},
-	{"legacy-quoted", true, func(v []byte) (string, bool) {
+	{"seqql-bare", false, false, func(v []byte) (string, bool) { return string(v), needsNothing(v) }},
+	{"legacy-quoted", true, true, func(v []byte) (string, bool) {
 		s := strings.NewReplacer(`\`, `\\`, `"`, `\"`, `*`, `\*`).Replace(string(v))
 		return `"` + s + `"`, true
 	}},
-	{"legacy-bare", true, func(v []byte) (string, bool) {
+	{"legacy-bare", true, false, func(v []byte) (string, bool) {
 		var sb strings.Builder
 		for _, r := range string(v) {
 			if unicode.IsSpace(r) || strings.ContainsRune(`(){}[]*"\:`, r) {
@@ -316,24 +360,112 @@ func hasToken(toks []frac.MetaToken, key string, value []byte) bool {
 	return false
 }
 
-func (c *ctx) caseFind(value []byte, cs, partial bool, maxTokenSize int, tag string) {
-	doc := []byte(`{"k":` + string(jsonString(value)) + `,"t":` + string(jsonString(value)) + `,"p":` + string(jsonString(value)) +
-		`,"x":` + string(jsonString(value)) + `,"m":` + string(jsonString(value)) + `,"o":{"k":` + string(jsonString(value)) + `},"unmapped":1}`)
-	replay := fmt.Sprintf("find %s %s %d %s", vh.B(cs), vh.B(partial), maxTokenSize, hexs(value))
-	metas, err := bulk.VerifIndexDoc(findMapping, maxTokenSize, cs, partial, doc)
+type docField struct {
+	name  string // top-level name ("o.k" is written as {"o":{"k":..}})
+	json  string // the JSON text of the value
+	bytes []byte // the value as the indexer sees it: string content, or the JSON text of a non-string
+}
+
+func buildDoc(fs []docField) []byte {
+	var sb bytes.Buffer
+	sb.WriteByte('{')
+	for i, f := range fs {
+		if i > 0 {
+			sb.WriteByte(',')
+		}
+		if f.name == "o.k" {
+			sb.WriteString(`"o":{"k":` + f.json + `}`)
+		} else {
+			sb.WriteString(`"` + f.name + `":` + f.json)
+		}
+	}
+	sb.WriteString(`,"unmapped":1}`)
+	return sb.Bytes()
+}
+
+func typesS(mt seq.MappingTypes) string {
+	p := make([]string, len(mt.All))
+	for i, t := range mt.All {
+		k := "o"
+		switch t.TokenizerType {
+		case seq.TokenizerTypeKeyword:
+			k = "k"
+		case seq.TokenizerTypeText:
+			k = "t"
+		case seq.TokenizerTypePath:
+			k = "p"
+		case seq.TokenizerTypeExists:
+			k = "x"
+		}
+		p[i] = fmt.Sprintf("%s:%s:%d", hexs([]byte(t.Title)), k, t.MaxSize)
+	}
+	return strings.Join(p, ",")
+}
+
+type idxKey struct {
+	cs, partial bool
+	mts         int
+}
+
+var indexers = map[idxKey]*bulk.VerifIndexer{}
+
+func (c *ctx) caseFind(value []byte, cs, partial bool, maxTokenSize int, extra []string, tag string) {
+	fs := []docField{}
+	for _, n := range []string{"k", "t", "p", "x", "m", "m2", "m3", "o.k"} {
+		fs = append(fs, docField{n, string(jsonString(value)), value})
+	}
+	for i, e := range extra {
+		fs = append(fs, docField{fmt.Sprintf("b%d", i+1), e, []byte(e)})
+	}
+	doc := buildDoc(fs)
+	replay := fmt.Sprintf("find %s %s %d %s %s", vh.B(cs), vh.B(partial), maxTokenSize, hexs(value), hexs([]byte(strings.Join(extra, "\x00"))))
+	// one long-lived indexer per configuration, as the pooled processors have
+	ik := idxKey{cs, partial, maxTokenSize}
+	if indexers[ik] == nil {
+		indexers[ik] = bulk.NewVerifIndexer(findMapping, maxTokenSize, cs, partial)
+	}
+	metas, err := indexers[ik].Index(doc)
 	key := replay
 	if err != nil || len(metas) == 0 {
 		c.find.Case(key, false, "doc=undecodable")
 		return
 	}
 	toks := metas[0]
+	// channel index: the whole token list of the document vs SV.Tok.indexField per field, with Main/All as the real mapping has them
+	{
+		parts := make([]string, len(fs))
+		for i, f := range fs {
+			parts[i] = hexs([]byte(f.name)) + "|" + typesS(findMapping[f.name]) + "|" + trunes(f.bytes)
+		}
+		var got []string
+		for _, t := range toks[1:] { // toks[0] is _all_
+			v := "e"
+			if len(t.Value) > 0 {
+				v = hex.EncodeToString(t.Value)
+			}
+			got = append(got, hexs(t.Key)+"="+v)
+		}
+		impl := "ok -"
+		if len(got) > 0 {
+			impl = "ok " + strings.Join(got, ";")
+		}
+		if c.n > 0 && c.n%20000 == 0 {
+			c.chIdx.Flush(c.o.Driver)
+		}
+		c.chIdx.Add(fmt.Sprintf("index %d %s %s %s", maxTokenSize, vh.B(cs), vh.B(partial), strings.Join(parts, "+")), impl, len(extra) >= 2 || !utf8.Valid(value),
+			"gen="+tag, fmt.Sprintf("nonstrings=%d", len(extra)))
+	}
 	conf.CaseSensitive = cs
 	defer func() { conf.CaseSensitive = false }()
-	nt := !utf8.Valid(value) || len(value) != len([]rune(string(value))) || strings.ToLower(string(value)) != string(value)
-	c.find.Case(key, nt, "gen="+tag, "cs="+vh.B(cs), "partial="+vh.B(partial), "valid-utf8="+vh.B(utf8.Valid(value)))
+	nt := !utf8.Valid(value) || len(value) != len([]rune(string(value))) || strings.ToLower(string(value)) != string(value) || len(extra) >= 2
+	c.find.Case(key, nt, "gen="+tag, "cs="+vh.B(cs), "partial="+vh.B(partial), "valid-utf8="+vh.B(utf8.Valid(value)), fmt.Sprintf("nonstrings=%d", len(extra)))
 
-	// existence of every present mapped field (also inside the object and for the second type of the multi-type field)
-	for _, f := range []string{"k", "t", "p", "x", "m", "m.keyword", "o.k"} {
+	// existence of every present mapped field (also inside the object and for every type of the multi-type fields)
+	exist := []string{"k", "t", "p", "x", "m", "m.keyword", "m2", "m2.keyword", "m3", "m3.text", "o.k"}
+	for i := range extra {
+		exist = append(exist, fmt.Sprintf("b%d", i+1))
+	}
+	for _, f := range exist {
 		for _, legacy := range []bool{false, true} {
 			data, ok, why := queryTerm("_exists_", f, legacy)
 			if !ok || !hasToken(toks, "_exists_", []byte(data)) {
@@ -345,25 +477,33 @@ func (c *ctx) caseFind(value []byte, cs, partial bool, maxTokenSize int, tag str
 		field string
 		bytes []byte
 		what  string
+		text  bool
 	}
 	var units []unit
-	// the whole value on keyword fields (when it is within the size limit)
+	// the whole value on keyword-typed names (when it is within the size limit); for a multi-type field the name that
+	// carries the keyword type: `field` when keyword is the main type, `field.keyword` otherwise
 	if len(value) <= maxTokenSize {
-		units = append(units, unit{"k", value, "keyword value"}, unit{"m.keyword", value, "keyword value of a multi-type field"}, unit{"o.k", value, "keyword value inside an object"})
-		// every leading path cut at a separator, and the whole path
-		units = append(units, unit{"p", value, "whole path"})
+		for _, f := range []string{"k", "m.keyword", "m2.keyword", "m3", "o.k"} {
+			units = append(units, unit{f, value, "keyword value", false})
+		}
+		units = append(units, unit{"p", value, "whole path", false})
 		for i := 1; i < len(value); i++ {
 			if value[i] == '/' {
-				units = append(units, unit{"p", value[:i], "leading path"})
+				units = append(units, unit{"p", value[:i], "leading path", false})
 			}
 		}
 	}
-	// every word of the text value (maximal runs of letters, numbers, '_' and '*')
-	for _, f := range []string{"t", "m"} {
+	for i, e := range extra {
+		if len(e) <= maxTokenSize && i < 3 {
+			units = append(units, unit{fmt.Sprintf("b%d", i+1), []byte(e), "non-string JSON value of a keyword field", false})
+		}
+	}
+	// every word of the text value (maximal runs of letters, numbers, '_' and '*') on text-typed names
+	for _, f := range []string{"t", "m", "m2", "m3.text"} {
 		start := -1
 		flush := func(end int) {
 			if start >= 0 && end-start <= maxTokenSize {
-				units = append(units, unit{f, value[start:end], "word of a text value"})
+				units = append(units, unit{f, value[start:end], "word of a text value", true})
 			}
 			start = -1
 		}
@@ -388,30 +528,34 @@ func (c *ctx) caseFind(value []byte, cs, partial bool, maxTokenSize int, tag str
 			}
 			data, ok, why := queryTerm(u.field, written, st.legacy)
 			c.find.Distribution["style="+st.name]++
-			if !ok {
-				// a style that cannot express the unit (e.g. a bare word that is a keyword) is not a violation by itself
+			if !ok && !st.strict {
+				// a bare word that is a keyword, etc.: this style cannot express the unit
 				c.find.Distribution["unparsed="+st.name]++
-				_ = why
 				continue
 			}
-			if !hasToken(toks, u.field, []byte(data)) {
+			if !ok || !hasToken(toks, u.field, []byte(data)) {
 				class := "not-findable"
 				if !utf8.Valid(u.bytes) {
 					class = "not-findable-invalid-utf8"
 				}
 				site := "tokenizer/keyword_tokenizer.go:Tokenize"
-				switch u.field {
-				case "p":
+				switch {
+				case u.field == "p":
 					site = "tokenizer/path_tokenizer.go:Tokenize"
-				case "t", "m":
+				case u.text:
 					site = "tokenizer/text_tokenizer.go:Tokenize"
 				}
 				if cs && !utf8.Valid(u.bytes) {
 					class = "not-findable-invalid-utf8-case-sensitive"
 				}
+				asks := fmt.Sprintf("asks for the token %q", data)
+				if !ok {
+					asks = "is not a single term (" + why + ")"
+					class += "-query-shape"
+				}
 				c.violate(site, class,
-					fmt.Sprintf("%s %q of field %s (case-sensitive=%v): the query %s:%s (%s) asks for the token %q, which the indexer did not emit; indexed: %s",
-						u.what, u.bytes, u.field, cs, u.field, written, st.name, data, fieldTokens(toks, u.field)), replay)
+					fmt.Sprintf("%s %q of field %s (case-sensitive=%v): the query %s:%s (%s) %s, which the indexer did not emit; indexed: %s",
+						u.what, u.bytes, u.field, cs, u.field, written, st.name, asks, fieldTokens(toks, u.field)), replay)
 			}
 		}
 	}
@@ -431,7 +575,7 @@ func (c *ctx) runFind(r *vh.RNG) {
 	var rec func(prefix []byte, n int)
 	rec = func(prefix []byte, n int) {
 		for _, cs := range []bool{false, true} {
-			c.caseFind(prefix, cs, false, 72, "exhaustive")
+			c.caseFind(prefix, cs, false, 72, nil, "exhaustive")
 		}
 		if n == 0 {
 			return
@@ -441,9 +585,78 @@ func (c *ctx) runFind(r *vh.RNG) {
 		}
 	}
 	rec(nil, c.o.Pick(2, 3))
-	for i := 0; i < c.o.Pick(20000, 300000); i++ {
-		c.caseFind(randValue(r), r.Bool(), r.Bool(), []int{5, 8, 72}[r.Intn(3)], "random")
+	// several non-string values in one document, every ordered pair first
+	for _, a := range nonStrings {
+		for _, b := range nonStrings {
+			c.caseFind([]byte("Request Failed: context canceled"), false, false, 72, []string{a, b}, "nonstrings")
+		}
 	}
+	for i := 0; i < c.o.Pick(20000, 300000); i++ {
+		var extra []string
+		for n := r.Intn(5); n > 0; n-- {
+			extra = append(extra, nonStrings[r.Intn(len(nonStrings))])
+		}
+		c.caseFind(randValue(r), r.Bool(), r.Bool(), []int{5, 8, 72}[r.Intn(3)], extra, "random")
+	}
+}
+
+// ---------------------------------------------------------------- channel mapping
+
+// caseMapping: spec = comma separated entries "<title or ->:<type name>:<size>" of the types list of field "fm".
+func (c *ctx) caseMapping(spec string) {
+	var y strings.Builder
+	y.WriteString("mapping-list:\n  - name: fm\n    types:\n")
+	var req []string
+	first := true
+	nt := false
+	for _, e := range strings.Split(spec, ",") {
+		p := strings.Split(e, ":")
+		title := p[0]
+		if title == "-" {
+			title = ""
+			nt = !first
+		}
+		first = false
+		y.WriteString("      - type: " + p[1] + "\n")
+		if title != "" {
+			y.WriteString("        title: " + title + "\n")
+		}
+		y.WriteString("        size: " + p[2] + "\n")
+		k := map[string]string{"keyword": "k", "text": "t", "path": "p", "exists": "x"}[p[1]]
+		req = append(req, hexs([]byte(title))+":"+k+":"+p[2])
+	}
+	impl := "err"
+	if m, err := seq.ReadMapping([]byte(y.String())); err == nil {
+		mt := m["fm"]
+		k := typesS(seq.MappingTypes{All: []seq.MappingType{mt.Main}})
+		impl = "ok main=" + k + " all=" + typesS(mt)
+	}
+	c.chMap.Add("mmap "+hexs([]byte("fm"))+" "+strings.Join(req, ","), impl, nt, fmt.Sprintf("entries=%d", len(req)), "result="+strings.Fields(impl)[0])
+}
+
+func (c *ctx) runMapping() {
+	titles := []string{"-", "a", "b"}
+	types := []string{"keyword", "text", "path"}
+	var rec func(prefix []string, n int)
+	rec = func(prefix []string, n int) {
+		if len(prefix) > 0 {
+			c.caseMapping(strings.Join(prefix, ","))
+		}
+		if n == 0 {
+			return
+		}
+		for _, t := range titles {
+			for _, ty := range types {
+				for _, sz := range []string{"0", "7"} {
+					if sz == "7" && ty != "keyword" {
+						continue
+					}
+					rec(append(append([]string(nil), prefix...), t+":"+ty+":"+sz), n-1)
+				}
+			}
+		}
+	}
+	rec(nil, 3)
 }
 
 // ---------------------------------------------------------------- oracle unicode
@@ -480,6 +693,8 @@ func main() {
 	rep := vh.NewReport("C11", o)
 	c := &ctx{o: o, rep: rep, seenV: map[string]bool{}}
 	c.ch = vh.NewChannel("tokenizer", "Keyword/Text/Path Tokenizer.Tokenize vs SV.Tok.keywordTokens/textTokens/pathTokens (token list, byte exact) on every value over a 20-symbol alphabet (ASCII case, '_' '*', separators, multi-byte case pairs whose lower case has another width, invalid bytes) up to a length bound x 5 configurations, plus random values x random limits / case / partial indexing; non-trivial = invalid UTF-8, over a size limit, upper case or multi-byte")
+	c.chIdx = vh.NewChannel("index", "indexer.Index on whole documents (long-lived indexers, several non-string JSON values per document, multi-type fields in every order, object flattening) vs SV.Tok.indexField per field with Main/All taken from the real mapping: the full (name, value) token list in order; non-trivial = two or more non-string values or invalid UTF-8")
+	c.chMap = vh.NewChannel("mapping", "seq.ReadMapping on a multi-type field (every ordering of untitled / titled entries over the tokenizer types, duplicates, missing main) vs SV.Tok.convertTypes: Main and All; non-trivial = the untitled entry is not the first")
 	c.find = vh.NewOracle("findable", "document indexed by the real bulk indexer; every promised unit (keyword value, word of a text value, leading path, field existence; also in an object and for a multi-type field) written back into a query in 6 quoting styles, parsed by the real parsers under the same case setting: the literal's term must be byte-equal to an indexed token; non-trivial = value with non-ASCII, upper case or invalid bytes")
 	c.uni = vh.NewOracle("unicode", "laws assumed by the theorems, checked for all 1,114,112 code points: ToLower idempotent and equal to To(LowerCase) and to strings.ToLower per rune; on ASCII the isTextToken table equals IsLetter||IsNumber||_||*, toLowerMap equals ToLower, IsDigit equals IsNumber")
 	if o.Replay != "" {
@@ -491,22 +706,34 @@ func main() {
 		for _, l := range lines {
 			f := strings.Fields(l)
 			switch {
-			case len(f) == 5 && f[0] == "find":
+			case (len(f) == 5 || len(f) == 6) && f[0] == "find":
 				mts, _ := strconv.Atoi(f[3])
 				v := []byte{}
 				if f[4] != "-" {
 					v, _ = hex.DecodeString(f[4])
 				}
-				c.caseFind(v, f[1] == "1", f[2] == "1", mts, "replay")
+				var extra []string
+				if len(f) == 6 && f[5] != "-" {
+					e, _ := hex.DecodeString(f[5])
+					extra = strings.Split(string(e), "\x00")
+				}
+				c.caseFind(v, f[1] == "1", f[2] == "1", mts, extra, "replay")
+			case len(f) == 2 && f[0] == "mmapq":
+				if b, err := hex.DecodeString(f[1]); err == nil {
+					c.caseMapping(string(b))
+				}
 			}
 		}
 	} else {
 		rng := vh.NewRNG(o.Seed)
 		c.runUnicode()
 		c.runTok(rng.Fork())
+		c.runMapping()
 		c.runFind(rng.Fork())
 	}
 	rep.AddChannel(c.ch, o.Driver)
+	rep.AddChannel(c.chIdx, o.Driver)
+	rep.AddChannel(c.chMap, o.Driver)
 	rep.AddOracle(c.find)
 	rep.AddOracle(c.uni)
 	rep.Write(o.Out)
